@@ -90,6 +90,14 @@ def program(draw, tier):
                 node["emit"] = "sched_now"
         if draw(st.integers(0, 7)) == 0:
             node["schedule_on_start"] = True
+        # run-time make_passive() / make_active() on plain (peered, non-structural) inputs, issued by the node itself at the
+        # end of chosen evaluations (what until_true / take do): effective from the next cycle
+        plain = [k for k, pth in enumerate(raw) if pth not in structs]
+        if plain and draw(st.integers(0, 3)) == 0:
+            tg = {}
+            for _ in range(draw(st.integers(1, 3))):
+                tg.setdefault(str(draw(st.integers(0, 4))), []).append([draw(st.sampled_from(plain)), draw(st.sampled_from(["p", "p", "a"]))])
+            node["toggle"] = tg
         if draw(st.integers(0, 3)) == 0:
             node["via_unique"] = True     # wired through Wiring::add_unique_node (never interned) instead of add_node
         # a quarter of the eligible nodes are wired as real static nodes (static_node.h selector / injection code)
@@ -173,12 +181,14 @@ def check(case, ctx) -> Result:
         res.violations.append(Viol("run_failed", f"run() threw on a valid program: {resp['error']}"))
         return res
     tr = Trace(resp["trace"])
-    got = {}
+    got, got_act = {}, {}
     for d in tr.user_evals:
         if d["gid"] != "r" or d["ins"] is None:
             continue
         snap = [(i["v"], i["m"], i["val"] if i["v"] else None) for i in d["ins"]]
         got.setdefault(d["label"], []).append((d["t"], snap, d["x"].get("out")))
+        if "act" in d["x"]:
+            got_act.setdefault(d["label"], []).append((d["t"], [k for k, a in enumerate(d["x"]["act"]) if a]))
 
     def compare(model):
         out = []
@@ -200,6 +210,9 @@ def check(case, ctx) -> Result:
                 if e[2] != o[2]:
                     out.append(Viol("wrong_output", f"node {lbl} at t={e[0]} wrote {o[2]} but f(inputs) = {e[2]}"))
                     break
+            else:
+                if lbl in model.active_log and model.active_log[lbl] != got_act.get(lbl, []):
+                    out.append(Viol("active_flag_wrong", f"node {lbl}: after its make_passive()/make_active() calls the inputs answering active() are {got_act.get(lbl, [])[:8]}, expected {model.active_log[lbl][:8]}"))
         return out
 
     model = Model(case).run()
@@ -224,6 +237,9 @@ def check(case, ctx) -> Result:
             res.labels.append("static_timer")
         if s["op"] == "snode":
             res.labels.append("static_node")
+        if s["op"] == "node" and s.get("toggle") and any(str(e_) in s["toggle"] for e_ in range(len(model.evals.get(s["id"], [])))):
+            res.labels.append("runtime_make_passive_or_active")
+            kinds.add("runtime_toggle")
         if s["op"] == "node" and s.get("sched"):
             for d in tr.evals_of(s["id"], "r"):
                 q0 = d["x"].get("q0")
